@@ -262,7 +262,10 @@ ObserveEnd(o, e) ==
      \cup UNION {VerdictFlags(o, m, r.msgs[m]) : m \in M}
      \cup Flag("C20_OneEntryPerFailedMessage",
                (r.top = "" /\ \A m \in M : Judged(o, m)) => r.nerrs = Cardinality(failed))
-     \cup Flag("C20_ErrIffAnyFailed", (r.top = "" /\ r.op = "Send") => (r.err <=> failed # {}))]
+     \cup Flag("C20_ErrIffAnyFailed", (r.top = "" /\ r.op = "Send") => (r.err <=> failed # {}))
+     \* a message of the batch that was not delivered is a failed message: it carries an error (and so has its
+     \* entry in the joined error) - unless the whole call failed before any message was tried (r.top)
+     \cup Flag("C20_UndeliveredCarriesError", (r.top = "" /\ ~o.stalled) => \A m \in M : ~r.msgs[m].delivered => r.msgs[m].haserr)]
 
 -----------------------------------------------------------------------------
 (* Observable projection used for conformance between the design model and *)
